@@ -197,12 +197,15 @@ impl Optimizer {
     /// Apply rule `rule_name` at exactly one match (each of the first `max_matches` matches in
     /// turn) on a fresh e-graph holding only `expr`, and extract, per match, the expression that
     /// uses the newly created node at the matched class and the original nodes elsewhere.
+    ///
+    /// Each result is `(base, rewritten)`: `base` is `expr` as extracted from the e-graph before
+    /// the rule is applied (so that it contains the same constant folding as `rewritten`).
     pub fn verif_rewrite_once(
         &self,
         expr: &RecExpr,
         rule_name: &str,
         max_matches: usize,
-    ) -> Vec<RecExpr> {
+    ) -> Vec<(RecExpr, RecExpr)> {
         let Some(rule) = (self.verif_all_rules().into_iter())
             .flat_map(|(_, r)| r)
             .find(|r| r.name.as_str() == rule_name)
@@ -228,6 +231,9 @@ impl Optimizer {
                 break;
             };
             let matched_nodes: Vec<Expr> = egraph[eclass].nodes.clone();
+            let base = egg::Extractor::new(&egraph, egg::AstSize)
+                .find_best(root)
+                .1;
             let changed =
                 rule.applier
                     .apply_one(&mut egraph, eclass, &subst, None, rule.name);
@@ -247,8 +253,8 @@ impl Optimizer {
             let extractor = egg::Extractor::new(&egraph, cost_fn);
             let (cost, best) = extractor.find_best(root);
             // the nodes of the matched class cost 1e6: cheaper means the rewritten form is used
-            if cost < 1e6 && &best != expr {
-                out.push(best);
+            if cost < 1e6 && best != base {
+                out.push((base, best));
             }
         }
         out
